@@ -551,6 +551,8 @@ def check_division_guard(ctx):
             m = s.targets[0].slice
             from ..normalise import Defs, expand
             m = expand(m, Defs(fi.body), keep=(qn,))           # a mask kept in a local (`zero = tmp.values <= 0`)
+            from ..srcmodel import canon_compare
+            m = canon_compare(m)                               # `0 >= d` is `d <= 0`
             mt = T(m)
             if mt in ('%s<=0' % den_t, '%s==0' % den_t, '~(%s>0)' % den_t, '%s<=0.0' % den_t, '%s==0.0' % den_t):
                 cleared.append((s, True))
